@@ -30,6 +30,8 @@ func c07Alphabet() []fsx.Op {
 		al = append(al, fsx.Op{K: "COMMIT", H: f})
 	}
 	al = append(al, fsx.Op{K: "CREATE", H: "root", N: "c"}, fsx.Op{K: "SETATTR", H: "root/f", Size: 100})
+	// attribute changes without a size (a stable operation like any other: it and everything before it survive)
+	al = append(al, fsx.Op{K: "SETATTR", H: "root/f", NoSize: true, Mtime: 777}, fsx.Op{K: "SETATTR", H: "root/g", NoSize: true, Atime: 888, Mtime: 999})
 	return al
 }
 
@@ -112,7 +114,8 @@ func diffNodes(a, b map[string]fsx.Node) string {
 	}
 	for p, x := range a {
 		y, ok := b[p]
-		if !ok || x.Kind != y.Kind || (x.Kind != 2 && x.Size != y.Size) || x.Data != y.Data || x.Target != y.Target || x.FH != y.FH {
+		if !ok || x.Kind != y.Kind || (x.Kind != 2 && x.Size != y.Size) || x.Data != y.Data || x.Target != y.Target || x.FH != y.FH ||
+			(y.Mtime != 0 && x.Mtime != y.Mtime) || (y.Atime != 0 && x.Atime != y.Atime) { // (b is the reference: times a client has set)
 			return p
 		}
 	}
